@@ -5,9 +5,11 @@
 // the DEFAULT when the pattern or the group did not take part, NULL when the text is not a literal of the type, BOOLEAN =
 // the group's existence, TRIM on TEXT, arrays and TIMESTAMPs position by position from their listed groups (a part that is
 // out of range gives no timestamp), never a value from another group or line, never truncated or wrapped.
-// Grid: 19 column definitions over 3 capture patterns, a split pattern and an inline pattern x 37 lines (partial matches,
+// Grid: 21 column definitions over 3 capture patterns, a split pattern and an inline pattern x 55 lines (partial matches,
 // no match, empty groups, 64-bit extremes and beyond, out-of-range date parts, two matches on one line, surrounding blanks),
 // each line alone and all lines as one file (no value leaks from another line).
+// Also: INTERVAL literals (exactly hours:minutes:seconds), month names in a day / month-name / year TIMESTAMP (only a month
+// name is a month), several columns of one split pattern (a plain column next to an array / TIMESTAMP over higher fields).
 include!("verif_grid_common.rs");
 include!("verif_grid_qcommon.rs");
 use serde_json::{json, Value as J};
@@ -57,6 +59,16 @@ fn columns() -> Vec<Col> {
         Col { def: "date[1], date[2], date[3], date[4], date[5], date[6] => v TIMESTAMP", value: |l| match caps(P_DATE, l) { Some(c) => timestamp(&c[1..7]), None => J::Null } },
         Col { def: "csv[2] => v INT", value: |l| as_int(split_fields(l).get(2).cloned()) },
         Col { def: "csv[0] => v TEXT", value: |l| as_text(split_fields(l).get(0).cloned()) },
+        // an INTERVAL literal is exactly hours:minutes:seconds
+        Col { def: "iv[1] => v INTERVAL", value: |l| match group(r"i=(\S*)", l, 1) { Some(t) => { let parts: Vec<&str> = t.split(':').collect();
+              if parts.len() != 3 { return J::Null; } let n: Vec<Option<i64>> = parts.iter().map(|p| p.parse::<i64>().ok()).collect();
+              match (n[0], n[1], n[2]) { (Some(h), Some(m), Some(sec)) if h.abs() < 1_000_000 && m.abs() < 1_000_000 && sec.abs() < 1_000_000 => { let total = h * 3600 + m * 60 + sec;
+                  if total < 0 { return J::String("skip".to_owned()); }
+                  json!(format!("{:02}:{:02}:{:02}.000", total / 3600, (total / 60) % 60, total % 60)) }, (Some(_), Some(_), Some(_)) => J::String("skip".to_owned()), _ => J::Null } }, None => J::Null } },
+        // day, month NAME, year: only a month name is a month
+        Col { def: "dmy[3], dmy[2], dmy[1] => v TIMESTAMP", value: |l| match caps(r"on ([0-9]+) ([A-Za-z]+) ([0-9]+)", l) { Some(c) => {
+              let m = match c[2].as_deref().unwrap().to_lowercase().as_str() { "jan" => 1, "feb" => 2, "mar" => 3, "apr" => 4, "may" => 5, "jun" | "june" => 6, "jul" | "july" => 7, "aug" => 8, "sep" | "sept" => 9, "oct" => 10, "nov" => 11, "dec" => 12, _ => 0 };
+              if m == 0 { J::Null } else { timestamp(&[c[3].clone(), Some(m.to_string()), c[1].clone()]) } }, None => J::Null } },
         Col { def: "csv[1] => w TEXT, csv[2], csv[3] => v TEXT[]", value: |l| { let f = split_fields(l); let e: Vec<J> = vec![as_text(f.get(2).cloned()), as_text(f.get(3).cloned())]; if e.iter().all(|x| x.is_null()) { J::Null } else { J::Array(e) } } },
         Col { def: "csv[1] => w TEXT, csv[3] => v TEXT", value: |l| as_text(split_fields(l).get(3).cloned()) },
         Col { def: "csv[3] => v TEXT, csv[1] => w TEXT", value: |l| as_text(split_fields(l).get(3).cloned()) },
@@ -66,11 +78,12 @@ fn columns() -> Vec<Col> {
 }
 
 fn definition(col: &str) -> String {
-    format!("CREATE TABLE t(line = '{}', date = '{}', pad = '{}', csv = split ',', ymd = split '/', 'always=(.*)|(.*)' => anchor TEXT DEFAULT 'row', {});",
+    format!("CREATE TABLE t(line = '{}', date = '{}', pad = '{}', csv = split ',', ymd = split '/', iv = 'i=(\\\\S*)', dmy = 'on ([0-9]+) ([A-Za-z]+) ([0-9]+)', 'always=(.*)|(.*)' => anchor TEXT DEFAULT 'row', {});",
         P_MAIN.replace('\\', "\\\\"), P_DATE.replace('\\', "\\\\"), P_PAD.replace('\\', "\\\\"), col)
 }
 
 fn num_eq(a: &J, b: &J) -> bool {
+    if *b == J::String("skip".to_owned()) { return true; }
     match (a, b) { (J::Number(x), J::Number(y)) => if x.is_i64() && y.is_i64() { x == y } else { x.as_f64() == y.as_f64() },
                    (J::Array(x), J::Array(y)) => x.len() == y.len() && x.iter().zip(y.iter()).all(|(p, q)| num_eq(p, q)), _ => a == b }
 }
@@ -85,6 +98,8 @@ fn verif_grid() {
         "d=2020-02-29", "d=2021-02-29", "d=2020-13-01", "d=2020-00-10", "d=2020-4294967297-01", "d=2020-12-31 23:59:59", "d=2020-12-31 24:00:00", "d=2020-01-01 00:00:60", "d=2020-06-31",
         "t=[  padded  ]", "t=[]", "t=[\tx ]", "t=[inner  space]",
         "a,5,c", "a,,c", ",9223372036854775807", "one", "a, 5 ,c", "a,b,c,d,e", "p,q,r", "2020/02/29", "2020/13/01/x", "2021/2/3",
+        "i=1:2:3", "i=01:02:03:24", "i=10:20:30:40:50:60", "i=01:02:03:", "i=1:2", "i=:1:2", "i=25:61:61", "i=x:1:2", "i=0:0:0",
+        "on 5 Mar 2020", "on 5 Marker 2020", "on 5 Junk 2021", "on 31 dec 1999", "on 1 Decoder 2020", "on 9 Sept 2020", "on 9 September 2020", "on 7 MAY 2020", "on 7 Maybe 2020",
     ];
     let cols = columns();
     for (ci, c) in cols.iter().enumerate() {
